@@ -15,11 +15,32 @@ WK = "vectorizers/_window_kernels.py"
 PREPROCESS = ["preprocess_token_sequences", "preprocess_timed_token_sequences", "preprocess_multi_token_sequences", "preprocess_tree_sequences"]
 
 
-def _masking_if(f: Func) -> ast.If:
+class _Arms:
+    """The top-level dispatch between the unmasked (filtering) branch and the masked (position-preserving) one."""
+
+    def __init__(self, node: ast.If, unmasked, masked, identity: bool):
+        self.node, self.body, self.orelse, self.identity = node, unmasked, masked, identity
+        self.lineno = node.lineno
+
+
+def _masking_if(f: Func) -> "_Arms":
+    """`.body` is the branch taken when no mask is configured, `.orelse` the masking branch - whichever way round the
+    test is written.  A truthiness test of `masking` is recognised as the dispatch too (identity=False) and reported
+    by R14.6: the empty string is a legal mask that such a test sends down the unmasked branch."""
     for n in f.node.body:
-        if isinstance(n, ast.If) and norm(n.test) == "masking is None":
-            return n
-    raise AnalysisError("C14: `if masking is None:` dispatch not found in %s" % f.key)
+        if not isinstance(n, ast.If):
+            continue
+        t = norm(n.test)
+        if t == "masking is None":
+            return _Arms(n, n.body, n.orelse, True)
+        if t == "masking is not None":
+            return _Arms(n, n.orelse, n.body, True)
+    for n in f.node.body:
+        if isinstance(n, ast.If) and {x.id for x in ast.walk(n.test) if isinstance(x, ast.Name)} == {"masking"} \
+                and not any(isinstance(x, ast.Compare) for x in ast.walk(n.test)):
+            neg = isinstance(n.test, ast.UnaryOp) and isinstance(n.test.op, ast.Not)
+            return _Arms(n, n.body if neg else n.orelse, n.orelse if neg else n.body, False)
+    raise AnalysisError("C14: the mask / no-mask dispatch (`if masking is None:`) not found in %s" % f.key)
 
 
 def _dict_name(f: Func) -> str:
@@ -273,12 +294,27 @@ def r14_5(repo: Repo) -> RuleResult:
     )
 
 
-RULES = [r14_1, r14_2, r14_3, r14_4, r14_5]
+def r14_6(repo: Repo) -> RuleResult:
+    """Which branch runs is decided by whether a mask is *configured* (`masking is None`), not by its truthiness: the
+    empty string is a string like any other, and a truthiness test silently treats it as "no mask"."""
+    rr = RuleResult("R14.6", "the preprocessors choose the masking branch by `masking is None`, not by the truthiness of the mask string", floor=4)
+    for name in PREPROCESS:
+        f = repo.func(PP, name)
+        arms = _masking_if(f)
+        if arms.identity:
+            rr.ok(f, "mask dispatch", "`%s`" % norm(arms.node.test), arms.lineno)
+        else:
+            rr.bad(f, "mask dispatch", "the branch is chosen by the truthiness of `masking` (`%s`): mask_string='' - a legal mask - takes the "
+                   "unmasked branch, removed tokens are deleted instead of replaced and no mask entry is added" % norm(arms.node.test), arms.lineno)
+    return rr
+
+
+RULES = [r14_1, r14_2, r14_3, r14_4, r14_5, r14_6]
 CLAIM = (
     "R14.1 in all four preprocess_* functions the mask code is len(dictionary) evaluated with the mask key absent and the mask is "
     "appended last with nothing touching the dictionary in between; R14.2 masking branch has no filter, non-masking branch filters; "
     "R14.3 every kernel / window function of the registries zeroes the mask before normalising and every class computes the mask "
     "index as len(token frequencies); R14.4 the tree projector; R14.5 `masking` reaches preprocessing on the transform path "
-    "whenever it does on the fit path."
+    "whenever it does on the fit path; R14.6 the four preprocessors choose the masking branch by `masking is None` (identity), never by the truthiness of the mask string."
 )
 NOT_DECIDED = "equality of all other cells with the masked computation (values)."
